@@ -33,6 +33,7 @@ func init() {
 		{Prop: "C17", Pkg: L, Dir: "c17", Func: "VH_C17_RobustLZMA", Params: map[string]int{"N": 19, "MAXSIZE": 1}, ParamsT: map[string]int{"N": 20}, Reach: []string{"robust/done"}},
 		{Prop: "C17", Pkg: L, Dir: "c17", Func: "VH_C17_RobustLZMA", Label: "[short]", Params: map[string]int{"N": 12, "MAXSIZE": 1}, Reach: []string{"robust/done"}},
 		{Prop: "C17", Pkg: L, Dir: "c17", Func: "VH_C17_RobustXz", Tier: "thorough", Params: map[string]int{"M": 12}, Reach: []string{"robustxz/done"}},
+		{Prop: "C17", Pkg: L, Dir: "c17", Func: "VH_C17_RobustXz", Label: "[m=8]", Params: map[string]int{"M": 8}, Reach: []string{"robustxz/done"}},
 		{Prop: "C17", Pkg: L, Dir: "c17", Func: "VH_C17_Uvarint", Aux: true, Reach: []string{"uvarint/done"}},
 		{Prop: "C17", Pkg: L, Dir: "c17", Func: "VH_C17_UvarintTotal", Aux: true, Params: map[string]int{"N": 10}, Reach: []string{"uvarinttotal/done"}},
 		{Prop: "C17", Pkg: L, Dir: "c17", Func: "VH_C17_EncStep", Aux: true, Params: map[string]int{"MAXEXTRA": 1}, Reach: []string{"encstep/done"}},
